@@ -1,8 +1,12 @@
-(* C11 — lemmas about the REST model. *)
+(* C11 — lemmas about the REST model (server side): routing over the generated table, the handlers against the
+   hand-written spec_expect, fail-closed, single document, authentication, soundness of the boolean monitor. *)
 From V Require Import Base.Common Base.C11_Http Gen.RestRoutes Gen.RestClient Model.C11_Rest Model.C11_Check.
 Open Scope string_scope.
 Open Scope list_scope.
 
+(* ------------------------------------------------------------------------------------------ *)
+(* generated tables                                                                           *)
+(* ------------------------------------------------------------------------------------------ *)
 (* rest_route_ops, part 1: the generated routes() table compiles to the hand-written route_spec *)
 Lemma routes_compile : compile_rest rest_routes = route_spec.
 Proof. vm_compute. reflexivity. Qed.
@@ -12,3 +16,310 @@ Lemma chain_is : rest_handler_chain = ["basicAuthHandler"; "cors.New.Handler"; "
   /\ rest_strict_slash = true /\ rest_not_found = "notFoundHandler"
   /\ rest_registration = ["Methods"; "Path"; "Name"; "Handler"].
 Proof. repeat split; reflexivity. Qed.
+
+(* every sendResponse with an explicit error status is followed by a return, in every handler and parse helper *)
+Lemma error_sites_all_return :
+  forallb (fun f : string * list (string * string) * list string * list bool => forallb (fun b => b) (snd f)) rest_funcs = true.
+Proof. vm_compute. reflexivity. Qed.
+
+(* what each route NAME denotes: the RPC call sites its handler may contain ("Service.Method", source order).
+   Hand-written; /add goes through the adder helper, which issues BlockAllocate, BlockPut and the final Pin. *)
+Definition named_ops : list (string * list string) := [
+  ("ID", ["Cluster.ID"]); ("Version", ["Cluster.Version"]); ("Peers", ["Cluster.Peers"]); ("PeerAdd", ["Cluster.PeerAdd"]);
+  ("PeerRemove", ["Cluster.PeerRemove"]); ("Add", ["adderutils.AddMultipartHTTPHandler"]);
+  ("Allocations", ["Cluster.Pins"]); ("Allocation", ["Cluster.PinGet"]);
+  ("StatusAll", ["Cluster.StatusAllLocal"; "Cluster.StatusAll"]); ("Recover", ["Cluster.RecoverLocal"; "Cluster.Recover"]);
+  ("RecoverAll", ["Cluster.RecoverAllLocal"; "Cluster.RecoverAll"]); ("Status", ["Cluster.StatusLocal"; "Cluster.Status"]);
+  ("Pin", ["Cluster.Pin"]); ("PinPath", ["Cluster.PinPath"]); ("Unpin", ["Cluster.Unpin"]); ("UnpinPath", ["Cluster.UnpinPath"]);
+  ("RepoGC", ["Cluster.RepoGCLocal"; "Cluster.RepoGC"]); ("ConnectionGraph", ["Cluster.ConnectGraph"]); ("Alerts", ["Cluster.Alerts"]);
+  ("Metrics", ["PeerMonitor.LatestMetrics"]); ("MetricNames", ["PeerMonitor.MetricNames"])].
+
+Definition func_rpcs (hn : string) : option (list string) :=
+  match find (fun f : string * list (string * string) * list string * list bool => String.eqb (fst (fst (fst f))) hn) rest_funcs with
+  | Some (_, cs, _, _) => Some (map (fun c : string * string => (fst c ++ "." ++ snd c)%string) cs)
+  | None => None
+  end.
+
+Definition strs_eqb := list_eqb String.eqb.
+
+Definition route_ops_okb (r : string * string * string * string) : bool :=
+  let '(name, _, _, hn) := r in
+  match func_rpcs hn, sget name named_ops with
+  | Some got, Some want => strs_eqb got want
+  | _, _ => false
+  end.
+
+Lemma route_ops_all : forallb route_ops_okb rest_routes = true.
+Proof. vm_compute. reflexivity. Qed.
+
+Lemma route_ops_each r : In r rest_routes -> route_ops_okb r = true.
+Proof. intros H. exact (proj1 (forallb_forall _ _) route_ops_all r H). Qed.
+
+(* the RPC names the model can issue for a call-site name *)
+Definition model_names (site : string) : list string :=
+  if String.eqb site "adderutils.AddMultipartHTTPHandler" then ["Cluster.BlockAllocate"; "IPFSConnector.BlockPut"; "Cluster.Pin"] else [site].
+
+(* ------------------------------------------------------------------------------------------ *)
+(* small facts                                                                                *)
+(* ------------------------------------------------------------------------------------------ *)
+Lemma list_eqb_refl {A} (eqb : A -> A -> bool) : (forall x, eqb x x = true) -> forall l, list_eqb eqb l l = true.
+Proof. intros H l. induction l as [|x l IH]; cbn; [reflexivity | rewrite H, IH; reflexivity]. Qed.
+
+Lemma list_eqb_eq {A} (eqb : A -> A -> bool) : (forall x y, eqb x y = true -> x = y) ->
+  forall a b, list_eqb eqb a b = true -> a = b.
+Proof.
+  intros H a. induction a as [|x a IH]; intros [|y b] E; cbn in E; try discriminate; [reflexivity|].
+  apply andb_prop in E as [E1 E2]. rewrite (H _ _ E1), (IH _ E2). reflexivity.
+Qed.
+
+Lemma strs_eqb_refl l : list_eqb String.eqb l l = true.
+Proof. apply list_eqb_refl. apply String.eqb_refl. Qed.
+Lemma strs_eqb_eq a b : list_eqb String.eqb a b = true -> a = b.
+Proof. apply list_eqb_eq. intros x y. apply String.eqb_eq. Qed.
+
+Lemma rcall_eqb_refl c : rcall_eqb c c = true.
+Proof. destruct c as [[m a] f]. cbn. rewrite String.eqb_refl, strs_eqb_refl. destruct f; reflexivity. Qed.
+Lemma rcall_eqb_eq c d : rcall_eqb c d = true -> c = d.
+Proof.
+  destruct c as [[m a] f], d as [[m' a'] f']. cbn. intros E.
+  apply andb_prop in E as [E E3]. apply andb_prop in E as [E1 E2].
+  apply String.eqb_eq in E1. apply strs_eqb_eq in E2. apply Bool.eqb_prop in E3. subst. reflexivity.
+Qed.
+Lemma rcalls_eqb_refl l : list_eqb rcall_eqb l l = true.
+Proof. apply list_eqb_refl. apply rcall_eqb_refl. Qed.
+Lemma rcalls_eqb_eq a b : list_eqb rcall_eqb a b = true -> a = b.
+Proof. apply list_eqb_eq. apply rcall_eqb_eq. Qed.
+
+Lemma is_nil_true {A} (l : list A) : is_nil l = true <-> l = [].
+Proof. destruct l; cbn; split; intros H; try reflexivity; discriminate. Qed.
+
+Lemma is4xx_spec s : is4xx s = true <-> (400 <= s < 500)%N.
+Proof. unfold is4xx. rewrite andb_true_iff, N.leb_le, N.ltb_lt. tauto. Qed.
+
+(* the calls issued are the expected operations in order, each successful except possibly the last issued one *)
+Inductive performed : list rcall -> list (string * list string) -> Prop :=
+| Pf_nil exp : performed [] exp
+| Pf_fail m a exp : performed [(m, a, true)] ((m, a) :: exp)
+| Pf_ok m a obs exp : performed obs exp -> performed ((m, a, false) :: obs) ((m, a) :: exp).
+
+Lemma prefix_ops_performed obs : forall exp, prefix_ops obs exp = true <-> performed obs exp.
+Proof.
+  induction obs as [|[[m a] f] obs IH]; intros exp.
+  - split; [constructor | reflexivity].
+  - destruct exp as [|[m' a'] exp]; cbn [prefix_ops].
+    + split; [discriminate | intros H; inversion H].
+    + split.
+      * intros H. apply andb_prop in H as [H H3]. apply andb_prop in H as [H1 H2].
+        apply String.eqb_eq in H1. apply strs_eqb_eq in H2. subst m' a'.
+        destruct f.
+        -- apply is_nil_true in H3. subst obs. constructor.
+        -- constructor. apply IH. exact H3.
+      * intros H. inversion H; subst.
+        -- rewrite String.eqb_refl, strs_eqb_refl. reflexivity.
+        -- rewrite String.eqb_refl, strs_eqb_refl. cbn. apply IH. assumption.
+Qed.
+
+Lemma performed_complete obs : forall exp, performed obs exp -> any_failed obs = false ->
+  List.length obs = List.length exp -> obs = ok_calls exp.
+Proof.
+  induction obs as [|c obs IH]; intros exp H Hf Hl.
+  - destruct exp; [reflexivity | discriminate].
+  - inversion H; subst; cbn in Hf; try discriminate.
+    cbn in Hl. injection Hl as Hl. unfold ok_calls. cbn. f_equal. apply IH; assumption.
+Qed.
+
+(* ------------------------------------------------------------------------------------------ *)
+(* routing                                                                                    *)
+(* ------------------------------------------------------------------------------------------ *)
+Lemma resolve_in strict rs m segs : forall seen h v, resolve strict rs m segs seen = MFull h v ->
+  exists t, In (m, t, h) rs /\ path_match strict t segs = PExact v.
+Proof.
+  induction rs as [|[[rm t] h'] rs IH]; intros seen h v H; cbn [resolve] in H.
+  - destruct seen; discriminate.
+  - destruct (path_match strict t segs) as [|v'|] eqn:Ep.
+    + destruct (IH _ _ _ H) as (t0 & Hin & Hp). exists t0. split; [right; exact Hin | exact Hp].
+    + destruct (String.eqb m rm) eqn:Em.
+      * apply String.eqb_eq in Em. subst rm. inversion H; subst. exists t. split; [left; reflexivity | exact Ep].
+      * destruct (IH _ _ _ H) as (t0 & Hin & Hp). exists t0. split; [right; exact Hin | exact Hp].
+    + destruct (String.eqb m rm) eqn:Em; [discriminate|].
+      destruct (IH _ _ _ H) as (t0 & Hin & Hp). exists t0. split; [right; exact Hin | exact Hp].
+Qed.
+
+Lemma route_spec_entries m t h : In (m, t, h) route_spec -> h <> RUnknown /\ (m = "GET" \/ m = "POST" \/ m = "DELETE").
+Proof.
+  unfold route_spec. cbn [In]. intros H.
+  repeat (destruct H as [H|H]; [inversion H; subst; split; [discriminate | tauto]|]). contradiction.
+Qed.
+
+Lemma resolve_spec_known m segs seen h v : resolve true route_spec m segs seen = MFull h v ->
+  h <> RUnknown /\ m <> "HEAD".
+Proof.
+  intros H. apply resolve_in in H as (t & Hin & _). apply route_spec_entries in Hin as [Hk Hm].
+  split; [exact Hk|]. destruct Hm as [->|[->| ->]]; discriminate.
+Qed.
+
+(* a request that reaches a handler: it passed the authentication wrapper, is not a CORS pre-flight, its path is
+   canonical, and the router matched method and path (hand-written table) to h with the path variables vars *)
+Definition routed (rq : rreq) (e : renv) (h : rhandler) (vars : list (string * string)) : Prop :=
+  authorized e = true /\ rr_preflight rq = false /\ re_redirect e = false /\
+  resolve true route_spec (rr_meth rq) (segments (rr_path rq)) false = MFull h vars.
+
+Definition strip_head (m : string) (r : rres) : rres :=
+  if String.eqb m "HEAD"
+  then mk_rres (rs_calls r) (rs_status r) (match rs_ndocs r with Some _ => Some 0%N | None => None end) (rs_serr r)
+  else r.
+
+Lemma rest_run_unfold rq e : rest_run rq e = strip_head (rr_meth rq) (rest_run_with true route_spec rq e).
+Proof. unfold rest_run. rewrite routes_compile. reflexivity. Qed.
+
+Lemma rest_run_routed rq e h vars : routed rq e h vars -> rest_run rq e = handle h vars (rr_query rq) e.
+Proof.
+  intros (Ha & Hp & Hr & Hm). rewrite rest_run_unfold. unfold rest_run_with. rewrite Ha, Hp, Hr, Hm. cbn [negb].
+  unfold strip_head. apply resolve_spec_known in Hm as [_ Hh].
+  destruct (String.eqb (rr_meth rq) "HEAD") eqn:E; [apply String.eqb_eq in E; contradiction | reflexivity].
+Qed.
+
+Lemma strip_head_calls m r : rs_calls (strip_head m r) = rs_calls r.
+Proof. unfold strip_head. destruct (String.eqb m "HEAD"); reflexivity. Qed.
+Lemma strip_head_status m r : rs_status (strip_head m r) = rs_status r.
+Proof. unfold strip_head. destruct (String.eqb m "HEAD"); reflexivity. Qed.
+Lemma strip_head_serr m r : rs_serr (strip_head m r) = rs_serr r.
+Proof. unfold strip_head. destruct (String.eqb m "HEAD"); reflexivity. Qed.
+
+(* whenever anything was called, the request was routed *)
+Lemma rest_run_calls_routed rq e : rs_calls (rest_run rq e) <> [] ->
+  exists h vars, routed rq e h vars.
+Proof.
+  rewrite rest_run_unfold, strip_head_calls. unfold rest_run_with, routed.
+  destruct (authorized e); cbn [negb]; [|intros H; exfalso; apply H; reflexivity].
+  destruct (rr_preflight rq); [intros H; exfalso; apply H; reflexivity|].
+  destruct (re_redirect e); [intros H; exfalso; apply H; reflexivity|].
+  destruct (resolve true route_spec (rr_meth rq) (segments (rr_path rq)) false) as [h vars| | |];
+    try (intros H; exfalso; apply H; reflexivity).
+  intros _. exists h, vars. repeat split; reflexivity.
+Qed.
+
+(* ------------------------------------------------------------------------------------------ *)
+(* handlers against the hand-written spec                                                     *)
+(* ------------------------------------------------------------------------------------------ *)
+Ltac break_match :=
+  repeat match goal with
+  | |- context[match ?x with _ => _ end] =>
+      lazymatch x with
+      | context[match _ with _ => _ end] => fail
+      | _ => destruct x eqn:?
+      end
+  end.
+
+Ltac break_match_hyp H :=
+  repeat match type of H with
+  | context[match ?x with _ => _ end] =>
+      lazymatch x with
+      | context[match _ with _ => _ end] => fail
+      | _ => destruct x eqn:?
+      end
+  end.
+
+Definition urlpath_of (vars : list (string * string)) : string :=
+  ("/" ++ var "keyType" vars ++ "/" ++ trim_slash (var "path" vars))%string.
+
+(* what "a part the handler must decode is malformed" means, per handler class (hand-written):
+   the CID / IPFS path / peer ID in the path, the pin options or add parameters in the query, the filter, the body *)
+Definition malformed (h : rhandler) (vars : list (string * string)) (e : renv) : Prop :=
+  match h with
+  | RAllocation | RRecover | RStatus | RPin | RUnpin => look (var "hash" vars) (re_cids e) = None \/ re_popts e = None
+  | RPinPath | RUnpinPath => look (urlpath_of vars) (re_paths e) = None \/ re_popts e = None
+  | RPeerRemove => look (var "peer" vars) (re_peers e) = None
+  | RPeerAdd => forall p, re_body e <> PidOk p
+  | RAdd => re_mp e = 0%N \/ re_addp e = None
+  | RAllocations => re_pfilter_ok e = false
+  | RStatusAll => re_tfilter e = None
+  | RUnknown => True
+  | _ => False
+  end.
+
+Lemma refuse_iff_malformed h vars q e : spec_expect h vars q e = Refuse <-> malformed h vars e.
+Proof.
+  destruct h; cbn [spec_expect malformed]; unfold urlpath_of;
+    try (split; [discriminate | intros []]; fail);
+    try (match goal with |- context[look ?a ?b] => destruct (look a b) end; destruct (re_popts e); split; intros H;
+         try discriminate; try reflexivity; try (destruct H; discriminate); auto; fail).
+  - (* PeerAdd *) destruct (re_body e); split; intros H; try reflexivity; try discriminate; try (intros p; discriminate).
+    exfalso. apply (H p). reflexivity.
+  - (* Add *) destruct (N.eqb (re_mp e) 0) eqn:E.
+    + apply N.eqb_eq in E. split; [intros _; left; exact E | reflexivity].
+    + apply N.eqb_neq in E. destruct (re_addp e) as [[o st]|]; split; intros H; try discriminate; try reflexivity.
+      * destruct H; [contradiction | discriminate].
+      * right; reflexivity.
+  - (* Allocations *) destruct (re_pfilter_ok e); split; intros H; try discriminate; reflexivity.
+  - (* StatusAll *) destruct (re_tfilter e); split; intros H; try discriminate; reflexivity.
+  - (* Unknown *) split; [intros _; exact I | reflexivity].
+Qed.
+
+(* a malformed part: answered 400 with one JSON document, nothing called *)
+Lemma handle_refuse h vars q e : h <> RUnknown -> spec_expect h vars q e = Refuse -> handle h vars q e = bad400.
+Proof.
+  intros Hh.
+  destruct h; try congruence; cbn [handle spec_expect]; unfold with_cid, with_path, h_add;
+    intros H; break_match_hyp H; try discriminate; try reflexivity.
+Qed.
+
+Definition errb (r : rres) : bool := (400 <=? rs_status r)%N || rs_serr r.
+Definition imp_failed (h : rhandler) (e : renv) : bool :=
+  match h with RAdd => negb (N.eqb (re_mp e) 1) || negb (re_imp_ok e) | _ => false end.
+Definition is_stream (h : rhandler) (e : renv) : bool :=
+  match h, re_addp e with RAdd, Some (_, true) => true | _, _ => false end.
+
+(* all that is claimed of a handler whose input decodes, in boolean form (decided by case analysis below) *)
+Definition ops_okb (h : rhandler) (e : renv) (exp : list (string * list string)) (r : rres) : bool :=
+  prefix_ops (rs_calls r) exp
+  && (if errb r then any_failed (rs_calls r) || (imp_failed h e && is_nil (rs_calls r))
+      else list_eqb rcall_eqb (rs_calls r) (ok_calls exp))
+  && (if any_failed (rs_calls r) then errb r else true)
+  && (if rs_serr r then is_stream h e && N.eqb (rs_status r) 200 else true)
+  && (if is4xx (rs_status r) then any_failed (rs_calls r) else true)
+  && match rs_ndocs r with
+     | Some 1%N => negb (N.eqb (rs_status r) 204)
+     | Some 0%N => N.eqb (rs_status r) 204
+     | Some _ => false
+     | None => is_stream h e && N.eqb (rs_status r) 200
+     end
+  && (if is_stream h e then true else match rs_ndocs r with None => false | _ => true end).
+
+Ltac refl_eqb := rewrite ?rcalls_eqb_refl, ?rcall_eqb_refl, ?strs_eqb_refl, ?String.eqb_refl, ?N.eqb_refl; cbn.
+
+(* one RPC followed by sendResponse *)
+Lemma rpc1_ops_ok h e m args st nd nf any :
+  imp_failed h e = false -> is_stream h e = false -> ((st = 200 /\ nd = 1) \/ (st = 204 /\ nd = 0))%N ->
+  ops_okb h e [(m, args)] (rpc1 e m args st nd nf any) = true.
+Proof.
+  intros Hi Hs Hst. unfold ops_okb, rpc1, res, errb. rewrite Hi, Hs.
+  destruct (fail_kind e m 0) as [k|]; cbn [rs_calls rs_status rs_ndocs rs_serr prefix_ops any_failed existsb snd is_nil ok_calls map fst list_eqb rcall_eqb];
+    rewrite ?String.eqb_refl, ?strs_eqb_refl; cbn [andb orb Bool.eqb].
+  - destruct (any || nf && (k =? 1)%N); reflexivity.
+  - destruct Hst as [[-> ->]|[-> ->]]; reflexivity.
+Qed.
+
+Lemma add_ops_ok e o st : re_addp e = Some (o, st) -> N.eqb (re_mp e) 0 = false ->
+  ops_okb RAdd e [("Cluster.BlockAllocate", []); ("IPFSConnector.BlockPut", []); ("Cluster.Pin", [re_root e; o; "-1"])] (h_add e) = true.
+Proof.
+  intros Ha Hm. unfold h_add, add_err. rewrite Ha, Hm.
+  unfold ops_okb, errb, imp_failed, is_stream. rewrite Ha.
+  generalize "Cluster.BlockAllocate" "IPFSConnector.BlockPut" "Cluster.Pin" "-1". intros ba bp pn m1.
+  destruct (N.eqb (re_mp e) 1); destruct (re_imp_ok e); destruct st;
+    cbn [negb orb andb rs_calls rs_status rs_ndocs rs_serr prefix_ops any_failed existsb snd is_nil]; try reflexivity;
+    destruct (fail_kind e ba 0); cbn [rs_calls rs_status rs_ndocs rs_serr prefix_ops any_failed existsb snd is_nil];
+    rewrite ?String.eqb_refl; try reflexivity;
+    destruct (fail_any e bp); cbn [app rs_calls rs_status rs_ndocs rs_serr prefix_ops any_failed existsb snd is_nil list_eqb];
+    rewrite ?String.eqb_refl; try reflexivity;
+    destruct (fail_kind e pn 0); cbn [app rs_calls rs_status rs_ndocs rs_serr prefix_ops any_failed existsb snd is_nil list_eqb ok_calls map fst rcall_eqb];
+    rewrite ?String.eqb_refl; try reflexivity.
+Qed.
+
+Lemma handle_ops_b h vars q e exp : spec_expect h vars q e = Ops exp -> ops_okb h e exp (handle h vars q e) = true.
+Proof.
+  destruct h; cbn [handle spec_expect]; unfold with_cid, with_path, rpc_plain, urlpath_of;
+    intros H; break_match_hyp H; try discriminate; inversion H; subst; clear H;
+    try (apply rpc1_ops_ok; [reflexivity | reflexivity | (left; split; reflexivity) || (right; split; reflexivity)]; fail).
+  - (* Add *) eapply add_ops_ok; eassumption.
+Qed.
